@@ -7,6 +7,7 @@ pub mod harness;
 mod registry;
 mod api;
 mod api_gen;
+mod plugin;
 
 use std::panic;
 
